@@ -113,7 +113,11 @@ class SeqProp:
     def shrink(self, case, pred):
         """pred(case, model_out, impl_out) -> bool ; returns the smallest sub-case still satisfying pred"""
 
+        t_end = time.time() + 90  # shrinking is a convenience: candidates that run into the per-case watchdog are expensive
+
         def fails(ops):
+            if time.time() > t_end:
+                return False
             c = Case(ops, case.meta, case.label)
             impl = self.safe_impl(c)
             model = self.run_model([c])[0]
